@@ -505,9 +505,32 @@ func c02Growth(c *Ctx, ix *idxEngine, rows, hdr, cells, inTable, nCols, cols *ty
 // fillsRowFromParam: fn appends exactly one cell per element of the variadic parameter to rowV
 // (a loop over the parameter calling Row.Add on rowV once per iteration).
 func fillsRowFromParam(fn *ssa.Function, rowV ssa.Value, par *ssa.Parameter) bool {
+	return fillsRowFromParamD(fn, rowV, par, 0)
+}
+
+func fillsRowFromParamD(fn *ssa.Function, rowV ssa.Value, par *ssa.Parameter, depth int) bool {
 	found := false
 	eachInstr(fn, func(in ssa.Instruction) {
 		f := staticCallee(in)
+		// a helper handed the row and the list, which does the filling
+		if f != nil && inModule(f) && f.Blocks != nil && f.Name() != "Add" && depth < 2 {
+			args := callCommon(in).Args
+			if len(args) == len(f.Params) {
+				ri, pi := -1, -1
+				for k, a := range args {
+					if a == rowV {
+						ri = k
+					}
+					if a == ssa.Value(par) {
+						pi = k
+					}
+				}
+				if ri >= 0 && pi >= 0 && fillsRowFromParamD(f, f.Params[ri], f.Params[pi], depth+1) {
+					found = true
+				}
+			}
+			return
+		}
 		if f == nil || f.Name() != "Add" || f.Signature.Recv() == nil {
 			return
 		}
